@@ -15,7 +15,13 @@ namespace vh {
 
 struct Rng {
     uint64_t s;
-    explicit Rng(uint64_t seed) : s(seed * 0x9E3779B97F4A7C15ull + 0x1234567ull) {}
+    // the seed is hashed first: consecutive seeds must not give the same stream shifted by one draw
+    explicit Rng(uint64_t seed) {
+        uint64_t z = seed + 0x632BE59BD9B4E019ull;
+        z = (z ^ (z >> 30)) * 0xBF58476D1CE4E5B9ull;
+        z = (z ^ (z >> 27)) * 0x94D049BB133111EBull;
+        s = z ^ (z >> 31);
+    }
     uint64_t next() {
         uint64_t z = (s += 0x9E3779B97F4A7C15ull);
         z = (z ^ (z >> 30)) * 0xBF58476D1CE4E5B9ull;
